@@ -234,6 +234,19 @@ fn block_follow(p: &LuaParser) -> bool {
 }
 
 fn parse_stat(p: &mut LuaParser) -> ParseResult {
+    if !p.enter_level() {
+        // consume the offending token so that error recovery always makes progress
+        let m = p.mark(LuaSyntaxKind::UnknownStat);
+        p.bump();
+        m.complete(p);
+        return Err(ParseFailReason::UnexpectedToken);
+    }
+    let result = parse_stat_impl(p);
+    p.leave_level();
+    result
+}
+
+fn parse_stat_impl(p: &mut LuaParser) -> ParseResult {
     let cm = match p.current_token() {
         LuaTokenKind::TkIf => parse_if(p)?,
         LuaTokenKind::TkWhile => parse_while(p)?,
